@@ -108,6 +108,9 @@ pub fn run(a: &Args) -> Report {
             crate::exec::split_toplevel(&std::fs::read_to_string(f).unwrap_or_default())
         };
         let mut eg = crate::exec::new_egraph(&mode, a.threads);
+        if a.get("naive") == Some("1") {
+            eg.seminaive = false;
+        }
         let mut full = String::new();
         let mut stable = String::new();
         let mut panicked = false;
@@ -115,6 +118,9 @@ pub fn run(a: &Args) -> Report {
             if case < n && eg.num_tuples() > 20000 {
                 // deterministic cut-off (depends only on the program), keeps dumps tractable
                 break;
+            }
+            if case < n && run::skip_run_on_large_db(&eg, t) {
+                continue;
             }
             match run::run_raw(&mut eg, t) {
                 Ok(outs) => {
